@@ -187,6 +187,11 @@ var (
 func genWin(t *rapid.T, label string, C int) Win {
 	var w Win
 	w.Kr, w.A, w.B = kit.GenWindow(t, label, 300)
+	if kit.Chance(t, label+"Huge", 1, 3000) { // rarely: tens of thousands of samples
+		w.Kr = rapid.IntRange(66000, 140000).Draw(t, label+"HugeKr") / C
+		w.A = rapid.IntRange(0, 3).Draw(t, label+"HugeA")
+		w.B = w.Kr - rapid.IntRange(0, 3).Draw(t, label+"HugeSpare")
+	}
 	if w.B < w.Kr && C >= 2 && rapid.IntRange(0, 3).Draw(t, label+"PartialSel") == 0 {
 		w.Partial = rapid.IntRange(1, C-1).Draw(t, label+"Partial")
 	}
